@@ -13,6 +13,10 @@ classes, modules, MISSING — that are well formed (`wfVal`: an instance carries
 of its class); the copy theorems additionally ask for `okVal` (acyclic; bound methods occur directly as
 attribute values, not inside containers); the constructor theorems ask for `ownersOk` (every init-enabled
 attribute of the class is owned by a class whose constructor runs) and hold for ANY keyword arguments.
+The stored-state theorems (`deepcopy_stored_eq`, `stored_value_survives_copy`, `construct_shows_getter`) are about
+`showS` / `copyShows`: what `getattr` shows for an instance's own `__dict__` state, attributes backed by a
+`spec_property` included. `selfref_unequal` / `pyEqC_closed` are about `pyEqC`, the comparison that also covers ONE
+operand referring to itself.
 No bound on sizes, depths (of values or of the inheritance chain) or the number of attributes.
 -/
 set_option linter.unusedSectionVars false
@@ -104,30 +108,53 @@ theorem construct_eq_spec {c : Nat} (h : ownersOk T c = true) (kw : Vals) :
 
 /-- **construct_shows_passed.** A value passed for an init-enabled attribute is what the new instance shows
 (a copy of it unless `do_not_copy`) — WHATEVER the value is (`0`, `""`, `[]`, `None`, … are values like any
-other) and whichever class of the chain owns the attribute. -/
+other) and whichever class of the chain owns the attribute; also for an attribute backed by a `spec_property`
+that honours stored values (`storable`: overridable or cached) — the override wins over the getter. -/
 theorem construct_shows_passed {c : Nat} (h : ownersOk T c = true) (kw : Vals)
     (i : Nat) (hi : i < (T.attrs c).length) (hinit : ((T.attrs c)[i]).init = true)
+    (hst : ((T.attrs c)[i]).storable = true)
     (hp : (nthVal kw i).isMissing = false) :
     nthVal (construct T c kw) i = protect ((T.attrs c)[i]) (nthVal kw i) := by
-  rw [construct_eq_spec h, nthVal_specFields _ _ _ hi]
-  simp [shown, hinit, hp]
+  rw [construct_eq_spec h]
+  unfold specFields showS
+  rw [nthVal_showFrom _ _ _ _ _ hi, nthVal_storedSpec _ _ _ hi]
+  have hs : storedSlot ((T.attrs c)[i]) (nthVal kw i) = protect ((T.attrs c)[i]) (nthVal kw i) := by
+    simp [storedSlot, hinit, hp]
+  rw [hs, shownAttr_stored _ _ hst (by rw [protect_isMissing]; exact hp)]
 
-/-- **construct_shows_default.** An attribute for which nothing is passed (or that is not init-enabled) shows
+/-- **construct_shows_default.** A plain attribute for which nothing is passed (or that is not init-enabled) shows
 what a fresh instance shows. -/
 theorem construct_shows_default {c : Nat} (h : ownersOk T c = true) (kw : Vals)
-    (i : Nat) (hi : i < (T.attrs c).length)
+    (i : Nat) (hi : i < (T.attrs c).length) (hplain : ((T.attrs c)[i]).prop = none)
     (hp : ((T.attrs c)[i]).init = false ∨ (nthVal kw i).isMissing = true) :
     nthVal (construct T c kw) i = ((T.attrs c)[i]).dflt := by
-  rw [construct_eq_spec h, nthVal_specFields _ _ _ hi]
+  rw [construct_eq_spec h, nthVal_specFields_plain _ _ _ hi hplain]
   rcases hp with hp | hp <;> simp [shown, hp]
+
+/-- **construct_shows_getter.** A property-backed attribute (its default is masked: `dflt = missing`) for which
+nothing is passed shows what its getter returns on the new instance: the constant, or what the new instance shows
+for the attribute the getter reads. -/
+theorem construct_shows_getter {c : Nat} (h : ownersOk T c = true) (kw : Vals)
+    (i : Nat) (hi : i < (T.attrs c).length) (p : PropInfo) (hprop : ((T.attrs c)[i]).prop = some p)
+    (hd : ((T.attrs c)[i]).dflt = .missing)
+    (hp : ((T.attrs c)[i]).init = false ∨ (nthVal kw i).isMissing = true) :
+    nthVal (construct T c kw) i = getterValue (T.attrs c) (storedSpec (T.attrs c) kw) p.getter := by
+  rw [construct_eq_spec h]
+  unfold specFields showS
+  rw [nthVal_showFrom _ _ _ _ _ hi, nthVal_storedSpec _ _ _ hi]
+  have hs : storedSlot ((T.attrs c)[i]) (nthVal kw i) = .missing := by
+    rcases hp with hp | hp <;> simp [storedSlot, hp, hd]
+  rw [hs]
+  simp [shownAttr, hprop, Val.isMissing]
 
 /-- **construct_passed_equal.** What the new instance shows for a passed value compares equal (as an
 attribute value) to the value passed. -/
 theorem construct_passed_equal {c : Nat} (h : ownersOk T c = true) (kw : Vals)
     (i : Nat) (hi : i < (T.attrs c).length) (hinit : ((T.attrs c)[i]).init = true)
+    (hst : ((T.attrs c)[i]).storable = true)
     (hp : (nthVal kw i).isMissing = false) (hok : okVal (nthVal kw i) = true) :
     attrEq T (nthVal (construct T c kw) i) (nthVal kw i) = true := by
-  rw [construct_shows_passed h kw i hi hinit hp]
+  rw [construct_shows_passed h kw i hi hinit hst hp]
   unfold protect
   split
   · exact attrEq_refl T _
@@ -149,6 +176,49 @@ theorem reconstruct_eq {c : Nat} {fs : Vals} (hown : ownersOk T c = true) (hok :
   unfold pyEq
   have := rc_fields_eq T (T.attrs c) fs (by simpa [okVal] using hok) hrc
   simp [vEq, isProperSub, isSub_refl, this]
+
+/-- **deepcopy_stored_eq.** `deepcopy(x) == x` on the level of the instance's OWN state (`st`: one `__dict__`
+entry per attribute, `missing` = none): the copy is made entry by entry, and what `getattr` then shows for it
+(`copyShows`) equals what it shows for the original (`showS`) — including attributes backed by a `spec_property`,
+whose entry is an assigned override or a memoised result (copied like any entry) and which otherwise show what
+the getter returns on the copy. -/
+theorem deepcopy_stored_eq {c : Nat} {st : Vals} (hok : okFields st = true) :
+    pyEq T (.inst c (copyShows T c st)) (.inst c (showS (T.attrs c) st)) = true := by
+  unfold pyEq copyShows
+  simp [vEq, isProperSub, isSub_refl, copyShows_fieldsEq T (T.attrs c) st hok]
+
+/-- **stored_value_survives_copy.** A value held in the instance's own state for an attribute that honours stored
+values (a plain attribute; a property that is overridable or cached) is what the COPY shows for that attribute (up
+to attribute equality) — never the getter's result instead of an assigned override. -/
+theorem stored_value_survives_copy {c : Nat} {st : Vals} (hok : okFields st = true)
+    (i : Nat) (hi : i < (T.attrs c).length) (hst : ((T.attrs c)[i]).storable = true)
+    (hv : (nthVal st i).isMissing = false) :
+    attrEq T (nthVal (copyShows T c st) i) (nthVal st i) = true := by
+  unfold copyShows showS
+  rw [nthVal_showFrom _ _ _ _ _ hi,
+    nthVal_dcFields _ _ _ _ (List.getElem?_eq_getElem hi),
+    shownAttr_stored _ _ hst (by rw [dcSlot_isMissing]; exact hv)]
+  exact dcSlot_attrEq T _ (okFields_nth st i hok)
+
+/-- **pyEqC_closed.** The comparison the correspondence evaluates (`pyEqC`: through `cEq` when an operand refers to
+itself) is `==` itself on finite trees. -/
+theorem pyEqC_closed {x y : Val} (hx : closed x = true) (hy : closed y = true) : pyEqC T x y = pyEq T x y := by
+  unfold pyEqC pyEq
+  simp [hx, hy, cEq_closed T false .none y hx]
+
+/-- **selfref_unequal.** An instance that holds ITSELF under a compare-enabled attribute — directly (`x.a = x`) or
+inside lists / sets / dict values (`x.a = [x]`, `x.a = {"k": x}`) — is unequal to every finite value, whichever
+operand comes first (so `==` stays symmetric on such pairs, and "equal" is never answered on the strength of a
+comparison that is still underway). -/
+theorem selfref_unequal (hT : wfTable T = true) {c : Nat} {fs : Vals} (i : Nat)
+    (hi : i < (T.attrs c).length) (hcmp : ((T.attrs c)[i]).compare = true)
+    (hreach : reaches (nthVal fs i) = true)
+    {w : Val} (hw : closed w = true) (hwf : wfVal T w = true) :
+    pyEqC T (.inst c fs) w = false ∧ pyEqC T w (.inst c fs) = false := by
+  have h := ((selfref_all hT c fs i hi hcmp hreach).1 w hw hwf).1
+  have hx : closed (.inst c fs) = false := not_closed_of_reaches hreach
+  unfold pyEqC
+  simp [hw, hx, h]
 
 /-- **repr_total.** `repr` of an instance always produces a result — also with missing values and with
 the instance itself among its values (rendered `<self>`): there is no failing branch. -/
@@ -229,6 +299,44 @@ example : okVal xFalsy = true ∧ reconstructible T2 (T2.attrs 2) (.cons (.int 0
     pyEq T2 (reconstruct T2 xFalsy) xFalsy = true := by decide
 /-- an attribute owned by a class outside the chain is outside `ownersOk` (no constructor assigns it) -/
 example : ownersOk [{ name := "X", parent := none, key := none, attrs := [aO "a" 5 .missing] }] 0 = false := by decide
+
+/-! Property-backed attributes and self-references: `S(base: int = 1, total: int` backed by
+`spec_property(cache=True)` returning `self.base`, `ref: Any = None)`. -/
+def T3 : Table :=
+  [ { name := "Child", parent := none, key := some 0, attrs := [aI "name" true true, aI "v" true true] },
+    { name := "S", parent := none, key := none,
+      attrs := [aO "base" 1 (.int 1),
+                { aO "total" 1 .missing with prop := some { cache := true, overridable := true, getter := .sameAs 0 } },
+                aO "ref" 1 .none] } ]
+
+/-- `x = S(base=2); x.total = 99`: own state and what getattr shows -/
+def stOver : Vals := .cons (.int 2) (.cons (.int 99) (.cons .none .nil))
+example : okFields stOver = true ∧ showS (T3.attrs 1) stOver = stOver := ⟨by decide, rfl⟩
+/-- nothing stored for `total`: the getter's result; a memo made when `base` was 2 stays after `base` became 3 -/
+example : showS (T3.attrs 1) (.cons (.int 2) (.cons .missing (.cons .none .nil)))
+    = .cons (.int 2) (.cons (.int 2) (.cons .none .nil)) := rfl
+example : showS (T3.attrs 1) (.cons (.int 3) (.cons (.int 2) (.cons .none .nil)))
+    = .cons (.int 3) (.cons (.int 2) (.cons .none .nil)) := rfl
+/-- the copy shows the override (a copy that dropped the entry would show `2`) -/
+example : copyShows T3 1 stOver = stOver ∧ ((T3.attrs 1)[1]).storable = true := ⟨rfl, rfl⟩
+/-- `S(base=2, total=99)` shows the override, `S(base=2)` what the getter returns for the new instance -/
+example : construct T3 1 (.cons (.int 2) (.cons (.int 99) .nil)) = stOver ∧ ownersOk T3 1 = true := ⟨rfl, by decide⟩
+example : construct T3 1 (.cons (.int 2) .nil) = .cons (.int 2) (.cons (.int 2) (.cons .none .nil)) := rfl
+
+/-- `x.ref = x`; `z` differs from `x` in `base`; `y.ref = z` -/
+def xSelf : Val := .inst 1 (.cons (.int 1) (.cons (.int 1) (.cons .selfRef .nil)))
+def zOther : Val := .inst 1 (.cons (.int 2) (.cons (.int 2) (.cons .none .nil)))
+def yHolds : Val := .inst 1 (.cons (.int 1) (.cons (.int 1) (.cons zOther .nil)))
+def xList : Val := .inst 1 (.cons (.int 1) (.cons (.int 1) (.cons (.list (.cons .selfRef .nil)) .nil)))
+example : wfTable T3 = true ∧ closed yHolds = true ∧ wfVal T3 yHolds = true ∧ closed xSelf = false ∧
+    reaches (nthVal (.cons (.int 1) (.cons (.int 1) (.cons .selfRef .nil))) 2) = true := by decide
+example : pyEqC T3 xSelf yHolds = false ∧ pyEqC T3 yHolds xSelf = false ∧ pyEqC T3 xSelf xSelf = true ∧
+    pyEqC T3 xSelf zOther = false ∧ pyEqC T3 zOther xSelf = false := by decide
+example : pyEqC T3 xList (.inst 1 (.cons (.int 1) (.cons (.int 1) (.cons (.list (.cons zOther .nil)) .nil)))) = false := by
+  decide
+/-- with the self-reference under a `compare=False` attribute the instances are equal -/
+example : pyEqC [ { name := "N", parent := none, key := none, attrs := [aI "a" true true, aI "r" false true] } ]
+    (.inst 0 (.cons (.int 1) (.cons .selfRef .nil))) (.inst 0 (.cons (.int 1) (.cons .none .nil))) = true := by decide
 
 end Examples
 end SpecVerif.Props.C10
